@@ -489,6 +489,33 @@ func (e *Enc) intArith(op token.Token, xt, yt types.Type, A, B string, xv, yv ss
 		return ""
 	}
 	// mathematical integers
+	if main && signed && pos.IsValid() && e.Ct != nil && len(e.Ct.Overflow) > 0 && (op == token.ADD || op == token.SUB) && !e.inContractEval && !e.mathInts {
+		// contract clause `overflow` in integer mode: the mathematical result of a signed + or - must lie in the type's
+		// range (otherwise the machine result wraps around, which the integer model does not represent)
+		if bits, _ := intBits(xt.Underlying().(*types.Basic)); bits > 0 {
+			lo := new(big.Int).Neg(new(big.Int).Lsh(big.NewInt(1), uint(bits-1)))
+			hi := new(big.Int).Sub(new(big.Int).Lsh(big.NewInt(1), uint(bits-1)), big.NewInt(1))
+			r := m.add(s, A, B)
+			if op == token.SUB {
+				r = m.sub(s, A, B)
+			}
+			anchor := e.srcText(pos)
+			if anchor == "" {
+				anchor = "?"
+			}
+			e.oblige("overflow", anchor, pos, e.reachHere(), and("(<= "+m.lit(SI, lo)+" "+r+")", "(<= "+r+" "+m.lit(SI, hi)+")"), "signed integer arithmetic does not wrap around")
+		}
+	}
+	if e.Ct != nil && e.Ct.Wraps && signed && pos.IsValid() && (op == token.ADD || op == token.SUB) && !e.inContractEval {
+		if bits, _ := intBits(xt.Underlying().(*types.Basic)); bits == 64 {
+			// exact two's complement: the mathematical result, brought back into range by 2^64
+			r := m.add(s, A, B)
+			if op == token.SUB {
+				r = m.sub(s, A, B)
+			}
+			return "(ite (> " + r + " 9223372036854775807) (- " + r + " 18446744073709551616) (ite (< " + r + " (- 9223372036854775808)) (+ " + r + " 18446744073709551616) " + r + "))"
+		}
+	}
 	switch op {
 	case token.ADD:
 		return e.wrap(xt, m.add(s, A, B))
